@@ -7,7 +7,7 @@ for p in $(ls $1/*/*/patch.diff $1/*/patch.diff 2>/dev/null); do
   d=$(dirname $p)
   if [ -f $d/meta.json ]; then props=$(python3 -c "import json;print(' '.join(json.load(open('$d/meta.json'))['properties']))"); name=$(basename $d)
   else props=$(basename $(dirname $d)); name=$props-$(basename $d); fi
-  if ! git -C /repo apply $p 2>/dev/null; then echo "BENIGN $name patch-does-not-apply"; continue; fi
+  if ! git -C /repo apply $(realpath $p) 2>/dev/null; then echo "BENIGN $name patch-does-not-apply"; continue; fi
   line="BENIGN $name"
   for id in $props; do
     out=$(./check $id --tier ${2:-quick} 2>&1); rc=$?
